@@ -307,7 +307,7 @@ class Verifier:
             for x in v.d.values():
                 self.check_invariants(m, x, label, seen)
 
-    def run(self, ccls, shape=None, prop=None, mode=None):
+    def run(self, ccls, shape=None, prop=None, mode=None, prefixes=None, max_paths=None):
         """symbolically execute the target of contract ``ccls``; returns FnResult
         with undischarged obligations"""
         t0 = time.time()
@@ -338,9 +338,13 @@ class Verifier:
         ens = self.registry.contract_func(ccls, "ensures")
         exc_spec = getattr(ccls, "raises", {}) or {}
         params = getattr(ccls, "params", {})
-        m.worklist = [[]]
+        m.worklist = [list(p) for p in prefixes] if prefixes else [[]]
         seen_prefixes = set()
+        res.leftover = []
         while m.worklist:
+            if max_paths is not None and res.paths >= max_paths:
+                res.leftover = [list(p) for p in m.worklist]
+                break
             dec = m.worklist.pop()
             key = tuple(dec)
             if key in seen_prefixes:
